@@ -31,6 +31,43 @@
 (*                          the key behind with an empty value             *)
 (*                          -> HistoryFree (paragraph after ValueError)    *)
 (* were run; c08.py re-runs them in every check.                           *)
+(* Construction (WithBuild = TRUE, MC_Deb822ValueHist_build.cfg: keys A /  *)
+(* Files, every live paragraph may become EMPTY and be filled again):      *)
+(*   Fresh(o, how)    live object o is replaced by an EMPTY paragraph of   *)
+(*                    its class: how = "noarg" (Cls() / Cls({}) / a copy   *)
+(*                    of an empty paragraph ...), "parsed" (the parsing    *)
+(*                    constructor ran over input WITHOUT any field: [] /   *)
+(*                    "" / empty file / blank lines / comments only / all  *)
+(*                    fields filtered away) or "cleared" (the SAME object  *)
+(*                    emptied by clear() / del / pop).  Reference: the     *)
+(*                    paragraph is <<>> and every later assignment has the *)
+(*                    history-free verdict -- validation applies to a      *)
+(*                    paragraph however it came to be empty.               *)
+(*   Rebuild(o, q, c, x)  live object o is replaced by Cls_o(M) where M is *)
+(*                    a MAPPING holding the fields m = paragraph of live   *)
+(*                    object q, optionally with Files |-> x, carried by    *)
+(*                    c = "dict" (plain mapping: nothing in it was ever    *)
+(*                    validated), "D" (a paragraph object of a class where *)
+(*                    Files is an ordinary field: x accepted) or "S" (a    *)
+(*                    paragraph object of a class where Files is           *)
+(*                    multivalued: the raw string x was never validated).  *)
+(*                    Building a paragraph from a mapping ASSIGNS every    *)
+(*                    field: the reference outcome depends on the TARGET   *)
+(*                    class and on m alone -- all values accepted -> the   *)
+(*                    new paragraph is m, otherwise ValueError and no      *)
+(*                    object is built (o stays what it was) -- never on    *)
+(*                    the class of the carrier.  Only generated when the   *)
+(*                    target class validates every key of m (Files into an *)
+(*                    S object is outside the domain).                     *)
+(* Negative controls of the construction layer (each run, each makes TLC   *)
+(* report HistoryFree violated; c08.py re-runs them):                      *)
+(*   TrustSourceClass      values of a carrier that is a paragraph of the  *)
+(*                         target's class or of a subclass (S is a subclass*)
+(*                         of D) are stored without validation             *)
+(*                         -> Rebuild(1, q, "S", "x\nx:x") is accepted    *)
+(*   ParseLeavesUnchecked  an object whose parsing constructor met no      *)
+(*                         field never validates again                     *)
+(*                         -> Fresh(o, "parsed"); Assign(o, A, "x\n")     *)
 (* Properties (MC_Deb822ValueHist*.cfg; the state space is CLOSED: any     *)
 (* history over three objects x keys {A, N, Files} x values {"x\n x",      *)
 (* "x\nx:x", "x\n"}):                                                      *)
@@ -48,18 +85,24 @@
 (***************************************************************************)
 EXTENDS Deb822Value
 
-CONSTANTS MemoMode, RejectStoresEmpty, EmitH
+CONSTANTS MemoMode, RejectStoresEmpty, EmitH,
+          UseN,                                    \* TRUE: keys A / N / Files, FALSE: A / Files
+          WithBuild,                               \* TRUE: Fresh and Rebuild are enabled
+          TrustSourceClass, ParseLeavesUnchecked   \* negative controls of the construction layer (FALSE)
 
-VARIABLES hp, memo, hres
+ASSUME WithBuild => MemoMode = "none"              \* (the memo controls are run without construction)
 
-hvars == <<hp, memo, hres>>
+VARIABLES hp, memo, hres,
+          unchk            \* implementation layer: the objects that no longer validate (always {} in the code)
+
+hvars == <<hp, memo, hres, unchk>>
 
 HCls   == <<"D", "S", "S">>
 Objs   == 1..Len(HCls)
 KA     == <<65>>                                   \* "A"  present from the start
 KN     == <<78>>                                   \* "N"  absent at first
 KF     == <<70, 105, 108, 101, 115>>               \* "Files"
-HKeys  == {KA, KN, KF}
+HKeys  == IF UseN THEN {KA, KN, KF} ELSE {KA, KF}
 VX     == <<120>>                                  \* "x"       initial value of A
 VG     == <<120, 10, 32, 120>>                     \* "x\n x"   accepted
 VB1    == <<120, 10, 120, 58, 120>>                \* "x\nx:x"  would inject field x
@@ -86,33 +129,68 @@ ImplPara(p, k, v, verdict) == IF verdict = "ok" THEN SetField(p, k, v)
                               ELSE IF RejectStoresEmpty /\ ~HasKey(p, k) THEN Append(p, [k |-> k, v |-> <<>>])
                               ELSE p
 
+\* construction: the mapping handed to the constructor, its reference and implementation outcome
+NoValue == <<>>
+Carriers == {"dict", "D", "S"}
+Hows == {"noarg", "parsed", "cleared"}
+MapOf(q, x) == IF x = NoValue THEN hp[q] ELSE SetField(hp[q], KF, x)
+BuildOK(m) == \A i \in 1..Len(m) : Accept(m[i].v)
+RefBuild(p, m) == IF BuildOK(m) THEN [res |-> "ok", para |-> m] ELSE [res |-> "ValueError", para |-> p]
+TargetValidatesAll(c, m) == \A i \in 1..Len(m) : ~IsMultiKey(c, m[i].k)
+\* isinstance(carrier, type(target)): the carrier is a paragraph of the target's class or of a subclass
+Trusted(t, c) == TrustSourceClass /\ c \in {"D", "S"} /\ (t = "D" \/ t = c)
+ImplBuildOK(t, c, m) == Trusted(t, c) \/ \A i \in 1..Len(m) : Validate(m[i].v) = "ok"
+NoHres == [op |-> "none", o |-> 0, k |-> <<>>, v |-> <<>>, res |-> "none", m |-> <<>>]
+
 Edge(op, args, r) == EmitH => PrintT(<<"EDGE", ToJson([from |-> hp, op |-> op, args |-> args, res |-> r, to |-> hp'])>>)
 
 HInit == /\ hp = [o \in Objs |-> << [k |-> KA, v |-> VX] >>]
          /\ memo = <<>>
-         /\ hres = [op |-> "none", o |-> 0, k |-> <<>>, v |-> <<>>, res |-> "none"]
+         /\ hres = NoHres /\ unchk = {}
          /\ inp = <<>> /\ para = <<>> /\ res = "none" /\ out = <<>>
          /\ (EmitH => \A v \in HValues \cup {VX} :
                          PrintT(<<"VALUE", ToJson([v |-> v, cls |-> Classify(v), segs |-> Segs(v)])>>))
 
 Assign(o, k, v) == /\ ~IsMultiKey(HCls[o], k)
-                   /\ LET vd == Verdict(HCls[o], k, v) IN
+                   /\ LET vd == IF o \in unchk THEN "ok" ELSE Verdict(HCls[o], k, v) IN
                         /\ hp' = [hp EXCEPT ![o] = ImplPara(hp[o], k, v, vd)]
                         /\ memo' = Remember(HCls[o], k, v)
-                        /\ hres' = [op |-> "assign", o |-> o, k |-> k, v |-> v, res |-> vd]
+                        /\ hres' = [NoHres EXCEPT !.op = "assign", !.o = o, !.k = k, !.v = v, !.res = vd]
                         /\ Edge("assign", <<o, k, v>>, vd)
-                   /\ UNCHANGED vars
+                   /\ UNCHANGED <<vars, unchk>>
 Scratch(c, v)   == /\ IsMultiKey(c, KF)
                    /\ hp' = hp
                    /\ memo' = Remember(c, KF, v)
-                   /\ hres' = [op |-> "scratch", o |-> 0, k |-> KF, v |-> v, res |-> "unspec"]
+                   /\ hres' = [NoHres EXCEPT !.op = "scratch", !.k = KF, !.v = v, !.res = "unspec"]
                    /\ Edge("scratch", <<c, KF, v>>, "unspec")
-                   /\ UNCHANGED vars
+                   /\ UNCHANGED <<vars, unchk>>
+Fresh(o, how)   == /\ WithBuild
+                   /\ hp' = [hp EXCEPT ![o] = <<>>]
+                   /\ unchk' = IF how = "cleared" THEN unchk                        \* the same object
+                                ELSE IF ParseLeavesUnchecked /\ how = "parsed" THEN unchk \cup {o}
+                                ELSE unchk \ {o}
+                   /\ hres' = [NoHres EXCEPT !.op = "fresh", !.o = o, !.res = "ok"]
+                   /\ Edge("fresh", <<o, how>>, "ok")
+                   /\ UNCHANGED <<vars, memo>>
+Rebuild(o, q, c, x) ==
+                   /\ WithBuild
+                   /\ (c = "D" /\ x # NoValue) => Accept(x)            \* a D paragraph holds validated values only
+                   /\ LET m == MapOf(q, x) IN
+                        /\ TargetValidatesAll(HCls[o], m)
+                        /\ LET ok == ImplBuildOK(HCls[o], c, m)
+                                r  == IF ok THEN "ok" ELSE "ValueError" IN
+                             /\ hp' = [hp EXCEPT ![o] = IF ok THEN m ELSE hp[o]]
+                             /\ unchk' = IF ok THEN unchk \ {o} ELSE unchk
+                             /\ hres' = [NoHres EXCEPT !.op = "rebuild", !.o = o, !.m = m, !.res = r]
+                             /\ Edge("rebuild", <<o, q, c, x, m>>, r)
+                   /\ UNCHANGED <<vars, memo>>
 
 HNext == \/ \E o \in Objs, k \in HKeys, v \in HValues : Assign(o, k, v)
          \/ \E v \in HValues : Scratch("S", v)
+         \/ \E o \in Objs, how \in Hows : Fresh(o, how)
+         \/ \E o \in Objs, q \in Objs, c \in Carriers, x \in HValues \cup {NoValue} : Rebuild(o, q, c, x)
 HSpec == HInit /\ [][HNext]_<<hvars, vars>>
-HView == <<hp, memo>>                  \* hres is an output
+HView == <<hp, memo, unchk>>           \* hres is an output
 
 HistoryFreeStep ==
     LET e == hres' IN
@@ -121,7 +199,14 @@ HistoryFreeStep ==
                           /\ hp'[e.o] = r.para
                           /\ \A q \in Objs \ {e.o} : hp'[q] = hp[q]
     /\ e.op = "scratch" => hp' = hp
+    /\ e.op = "fresh" => /\ hp'[e.o] = <<>> /\ e.res = "ok"
+                         /\ \A q \in Objs \ {e.o} : hp'[q] = hp[q]
+    /\ e.op = "rebuild" => LET r == RefBuild(hp[e.o], e.m) IN
+                           /\ e.res = r.res
+                           /\ hp'[e.o] = r.para
+                           /\ \A q \in Objs \ {e.o} : hp'[q] = hp[q]
 HistoryFree == [][HistoryFreeStep]_<<hvars, vars>>
 
-HistSound == \A o \in Objs : SoundObs(hp[o], ObsAll(hp[o]))
+\* (an empty paragraph has no text: the round trip is about paragraphs that hold a field)
+HistSound == \A o \in Objs : hp[o] # <<>> => SoundObs(hp[o], ObsAll(hp[o]))
 =============================================================================
